@@ -522,6 +522,47 @@ func (t *trackDialer) severFirst() {
 	}
 }
 
+// runSideOrphan (side modes): the endpoint answers a side dial with success but the side connection never
+// arrives (its handshake went to a newer endpoint under the same name, or the peer deviates); then the control
+// connection is lost.  The dial was in flight and depended on that endpoint: it must return.
+func runSideOrphan(sc proxyScenario) (problems []string, skipped string) {
+	p, err := snix.NewPeerOpt(&sniproxy.Options{Siding: true, DialWithAddr: sc.mode == "siding-addr"})
+	if err != nil {
+		return nil, "peer: " + err.Error()
+	}
+	defer p.Close(5 * time.Second)
+	n := sc.tunnels + 1
+	done := make(chan error, n)
+	for i := 0; i < n; i++ {
+		go func() {
+			c, err := p.Client.Dial(context.Background(), "192.0.2.9:1000") // the serving context is not cancelled
+			if err == nil {
+				c.Close()
+			}
+			done <- err
+		}()
+	}
+	for i := 0; i < n; i++ {
+		r, ok := p.NextReq(5 * time.Second)
+		if !ok {
+			return nil, "dial request not received"
+		}
+		// dialResponse{session, nil}: "the side connection is established" — it is not
+		p.Send(snix.ReplyFrame(r.ID, r.Typ, 0, append(snix.U64(uint64(i+1)), snix.U64(0)...)))
+	}
+	time.Sleep(100 * time.Millisecond)
+	p.Sever()
+	for i := 0; i < n; i++ {
+		select {
+		case <-done:
+		case <-time.After(watchdog + 6*time.Second):
+			problems = append(problems, fmt.Sprintf("a dial through the endpoint (answered, side connection never delivered) still blocked %v after the control connection was lost", watchdog+6*time.Second))
+			return problems, ""
+		}
+	}
+	return problems, ""
+}
+
 // runEpFault: a real endpoint with open sessions (an application blocked reading each, a read request
 // outstanding on each) gets something it cannot serve from the proxy side, or loses the connection.
 func runEpFault(sc proxyScenario) (problems []string, skipped string) {
@@ -627,6 +668,12 @@ func runEpFault(sc proxyScenario) (problems []string, skipped string) {
 }
 
 func runProxy(sc proxyScenario) (problems []string, skipped string) {
+	if sc.fault == "side-dial-orphaned" {
+		if sc.mode == "legacy" {
+			return nil, "side dials exist in the side modes only"
+		}
+		return runSideOrphan(sc)
+	}
 	if strings.HasPrefix(sc.fault, "epfault-") {
 		if sc.mode != "legacy" {
 			return nil, "epfault scenarios use the multiplexed (legacy) mode"
@@ -1035,6 +1082,7 @@ func main() {
 		for _, fault := range []string{"sever", "kick", "endpoint-close", "cancel", "kick-hung", "sever-backlog", "epfault-text", "epfault-short", "epfault-cut", "epfault-silent", "kick-hung-hinted"} {
 			ops = append(ops, proxyScenario{fault, 2, "legacy"}.canon())
 		}
+		ops = append(ops, proxyScenario{"side-dial-orphaned", 1, "siding"}.canon(), proxyScenario{"side-dial-orphaned", 0, "siding-addr"}.canon())
 		// many idle multiplexed connections (each keeps a read outstanding at the endpoint) when the tunnel goes
 		ops = append(ops, proxyScenario{"sever", 130, "legacy"}.canon())
 		if f.Thorough() {
